@@ -60,7 +60,7 @@ READS = {1: 'buffer', 2: 'stdio', 4: 'mmap'}
 VIAS = {1: 'column reader (one read per chunk)', 2: 'column reader in reads of k rows', 4: 'batch reader with batch_size k'}
 
 
-def tab(name, cols, r, rg=None, order=0, ps=(1,), codec=('unc',), read=1, via=1, k=3, stats=1, rgsize=None, trail0=False, wfile=False, nsymlen=1, twice=False, ref=False, statcheck=False,
+def tab(name, cols, r, rg=None, order=0, ps=(1,), codec=('unc',), read=1, via=1, k=3, stats=1, rgsize=None, trail0=False, wfile=False, nsymlen=1, twice=False, ref=False, statcheck=False, window=None,
         timeout=1500, fork_max=16, max_paths=100000):
     """cols: list of (type 0..6, optional 0/1, symbolic bits, batch pattern list[, FLBA length])"""
     d = ['-DVT_NC=%d' % len(cols), '-DVT_R=%d' % r, '-DVT_ORDER=%d' % order, '-DVT_PS=' + ','.join(map(str, ps)), '-DVT_CODEC=' + ','.join(CODECS[c] for c in codec),
@@ -70,6 +70,7 @@ def tab(name, cols, r, rg=None, order=0, ps=(1,), codec=('unc',), read=1, via=1,
     if trail0: d.append('-DVT_TRAIL0=1')
     if twice: d.append('-DVT_TWICE')
     if wfile: d.append('-DVT_WFILE')
+    if window: d += ['-DVT_WLO=%d' % window[0], '-DVT_WHI=%d' % window[1]]
     ctxt = []
     anysym = False
     for i, c in enumerate(cols):
@@ -86,8 +87,8 @@ def tab(name, cols, r, rg=None, order=0, ps=(1,), codec=('unc',), read=1, via=1,
         if statcheck: d.append('-DVT_STATCHECK')
         kw['ref'] = REFS
     stubs = STUBS if anysym else [x for x in STUBS if 'crc32' not in x]
-    b = ('%d column(s): %s; %d rows; row groups (explicit new_row_group) %s; call order %s%s; page_size %s; codec %s; write_statistics %s%s; read back via %s through %s%s'
-         % (len(cols), '; '.join(ctxt), r, '+'.join(map(str, rg)) if rg else '1', {0: 'column by column', 1: 'columns in reverse order', 2: 'round robin'}[order],
+    b = ('%d column(s): %s; %d rows%s; row groups (explicit new_row_group) %s; call order %s%s; page_size %s; codec %s; write_statistics %s%s; read back via %s through %s%s'
+         % (len(cols), '; '.join(ctxt), r, (' (symbolic parts restricted to rows %d..%d, the other rows concrete)' % (window[0], window[1] - 1)) if window else '', '+'.join(map(str, rg)) if rg else '1', {0: 'column by column', 1: 'columns in reverse order', 2: 'round robin'}[order],
             ', one extra empty write_batch per column and row group' if trail0 else '', ' | '.join(map(str, ps)) + (' (one per path)' if len(ps) > 1 else ''),
             ' | '.join(codec) + (' (one per path)' if len(codec) > 1 else ''), 'on' if stats else 'off', (', row_group_size %d' % rgsize) if rgsize is not None else '',
             ' + '.join(v for kk, v in VIAS.items() if via & kk).replace('k rows', '%d rows' % k).replace('batch_size k', 'batch_size %d' % k), ' + '.join(v for kk, v in READS.items() if read & kk),
@@ -98,5 +99,87 @@ def tab(name, cols, r, rg=None, order=0, ps=(1,), codec=('unc',), read=1, via=1,
     return E2(('tab+ref/' if ref else 'tab/') + name, HT, defines=d, all_lib=True, timeout=timeout, stubs=stubs, fork_max=fork_max, max_paths=max_paths, bounds=b, **kw)
 
 
+HW = 'harness/e2/c01_wide.c'
+
+
+def wide(cols, rgs, rows=1, opt=0, codec='unc', ref=False):
+    """footer lists (schema elements, chunks per row group, row groups) around the Thrift list-header switch at 15 elements; concrete content"""
+    d = ['-DVW_COLS=%d' % cols, '-DVW_RGS=%d' % rgs, '-DVW_ROWS=%d' % rows, '-DVW_OPT=%d' % opt, '-DVW_CODEC=' + CODECS[codec]]
+    kw = {}
+    if ref:
+        d += ['-DREFCHECK', '-DREF_MAX_COLUMNS=%d' % cols, '-DREF_MAX_ROW_GROUPS=%d' % rgs, '-DREF_MAX_SCHEMA=%d' % (cols + 1), '-DREF_MAX_VALUES=4', '-DREF_MAX_PAGES=2']
+        kw['ref'] = REFS
+    return E2('wide%s/c%d-rg%d-r%d-%s/%s' % ('+ref' if ref else '', cols, rgs, rows, 'opt' if opt else 'req', codec), HW, defines=d, all_lib=True, timeout=600, max_steps=40_000_000,
+              stubs=[x for x in STUBS if 'crc32' not in x], bounds='%d INT32 %s columns, %d row group(s) (explicit new_row_group) of %d row(s), %s, CONCRETE content: footer lists of %d schema elements, %d column chunks per row group, %d row groups (Thrift list header: short form up to 14 elements, long form from 15); re-open, schema, partition, every value%s; outside: symbolic content, other types'
+                     % (cols, 'OPTIONAL (concrete null pattern)' if opt else 'REQUIRED', rgs, rows, codec, cols + 1, cols, rgs, '; independent reference reader: structure, tiling, sizes, counts, real CRC-32, names, every value' if ref else ''), **kw)
+
+
+def wides(tier, ref=False):
+    o = [wide(14, 1, ref=ref), wide(15, 1, ref=ref), wide(2, 15, ref=ref)]
+    if tier != 'quick':
+        o += [wide(13, 1, ref=ref), wide(16, 1, ref=ref), wide(14, 1, rows=2, opt=1, ref=ref), wide(15, 2, rows=2, ref=ref), wide(16, 1, rows=2, opt=1, codec='snappy', ref=ref),
+              wide(1, 14, ref=ref), wide(1, 15, ref=ref), wide(1, 16, ref=ref), wide(2, 14, rows=2, opt=1, ref=ref), wide(2, 16, rows=2, ref=ref), wide(15, 15, ref=ref)]
+    return o
+
+
+def deep(ref=False):
+    """the deep thorough tier: tables of up to 3 columns (harness c01_tab.c).  With ref (C05) every file is also handed to the reference reader."""
+    o = []
+    k = dict(ref=ref, statcheck=ref)
+    A = lambda **kw: dict(k, **kw)
+    # ---- (1) every type x OPTIONAL/REQUIRED as the SYMBOLIC column of a 3-column table (the two others concrete), uneven
+    #      batches, pages ending per batch or shared, read back through the three I/O paths, column readers and batch reader
+    conc2 = {0: [(5, 1, 0, [3, 1]), (2, 0, 0, [4])], 1: [(5, 1, 0, [3, 1]), (0, 0, 0, [4])], 2: [(0, 1, 0, [1, 3]), (6, 0, 0, [4], 5)], 3: [(5, 0, 0, [2, 2]), (1, 1, 0, [4])],
+             4: [(0, 1, 0, [3, 1]), (5, 1, 0, [4])], 5: [(1, 1, 0, [1, 3]), (4, 0, 0, [4])], 6: [(3, 1, 0, [2, 2]), (5, 1, 0, [4])]}
+    for ct in range(7):
+        for opt in (1, 0):
+            r = 4 if opt or ct in (1, 2, 3, 4) else 6
+            if ct in (3, 4) and opt and ref: r = 3
+            cols = [(ct, opt, 3, [1, r - 1], 3)] + conc2[ct]
+            cols = [c if i == 0 else tuple(list(c[:3]) + [[min(x, r) for x in c[3]] if sum(c[3]) <= r else [r]] + list(c[4:])) for i, c in enumerate(cols)]
+            pos = ct % 3                       # position of the symbolic column in the schema
+            cols = cols[1:1 + pos] + [cols[0]] + cols[1 + pos:]
+            o.append(tab('sym-%s-%s/3col/r%d' % (TN[ct], 'opt' if opt else 'req', r), cols, r, ps=(1, 1048576), read=7, via=7, k=3, **A(timeout=3000)))
+    # ---- (2) symbolic window of 4 rows inside a longer table: across a page boundary, across a row-group boundary, behind an empty batch
+    for ct, opt, sym in ((1, 1, 3), (2, 1, 1), (5, 1, 1), (0, 1, 3), (4, 1, 2), (6, 1, 3), (3, 0, 2)):
+        o.append(tab('window-%s/2col/r10-rg6.4' % TN[ct], [(ct, opt, sym, [2, 3, 1], 4), (5 if ct != 5 else 1, 1, 0, [4, 0, 2])], 10, rg=[6, 4], window=(4, 8), ps=(1,), read=3, via=3, k=4, **A(timeout=3000)))
+    for ct, opt, sym in ((1, 1, 1), (5, 1, 3), (0, 1, 1), (2, 0, 2)):
+        o.append(tab('window-%s/3col/r12-ps80' % TN[ct], [(4, 1, 0, [5, 7]), (ct, opt, sym, [1, 2, 0, 3]), (6, 0, 0, [12], 1)], 12, window=(2, 6), ps=(80,), order=2, read=5, via=5, k=5, **A(timeout=3000)))
+    # ---- (3) null patterns of longer columns (values concrete): RLE runs of >= 8 equal levels, several batches per page
+    o.append(tab('nulls-INT32/1col/r10', [(1, 1, 1, [3, 3, 4])], 10, ps=(1048576,), read=1, via=3, k=4, **A(timeout=3000)))
+    o.append(tab('nulls-BOOLEAN/2col/r9', [(0, 1, 1, [4, 5]), (1, 0, 0, [9])], 9, ps=(1048576,), read=2, via=5, k=2, **A(timeout=3000)))
+    o.append(tab('nulls-BYTE_ARRAY/1col/r9-rg4.5', [(5, 1, 1, [2, 2, 5])], 9, rg=[4, 5], ps=(1048576,), read=4, via=1, **A(timeout=3000)))
+    # ---- (4) codecs with a symbolic null pattern (page bodies concrete per path), 3 columns
+    for codec, ct in (('snappy', 1), ('lz4', 5), ('snappy', 0), ('lz4', 2), ('snappy', 6), ('lz4', 4)):
+        o.append(tab('codec-%s-%s/3col/r7' % (codec, TN[ct]), [(3, 0, 0, [7]), (ct, 1, 1, [3, 4], 5), (5 if ct != 5 else 2, 1, 0, [2, 5])], 7, rg=None, ps=(1,), codec=(codec,), read=3, via=5, k=3, **A(timeout=3000)))
+    # ---- (5) byte arrays with symbolic lengths 0..3, FLBA lengths 1 / 5 / 16
+    o.append(tab('balen2/2col/r3', [(5, 1, 3, [1, 2]), (1, 0, 0, [3])], 3, nsymlen=2, ps=(1, 1048576), read=1, via=3, k=2, **A(timeout=3000)))
+    o.append(tab('balen3-req/1col/r3', [(5, 0, 2, [3])], 3, nsymlen=3, ps=(1,), read=2, via=1, **A(timeout=3000)))
+    for fl in (1, 5, 16):
+        o.append(tab('flba%d/2col/r4' % fl, [(6, 1, 3, [3, 1], fl), (0, 1, 0, [2, 2])], 4, ps=(1, 1048576), read=5, via=3, k=3, **A()))
+    # ---- (6) CONCRETE tables (special values), one path per combination of page size x codec: all types, call orders, empty batches,
+    #      empty row groups, all-null / no-null columns, zero rows, statistics off, row_group_size, FILE* writer; every I/O path and reader
+    PS3 = (1, 80, 1048576); C3 = ('unc', 'snappy', 'lz4')
+    o.append(tab('conc/int32-ba-bool/r12-rg5.0.7', [(1, 1, 0, [2, 1]), (5, 1, 0, [3]), (0, 0, 0, [1, 4])], 12, rg=[5, 0, 7], ps=PS3, codec=C3, read=7, via=7, k=5, **k))
+    o.append(tab('conc/double-flba16-int64/r12-rg1.11/reverse', [(4, 1, 0, [4, 0, 3]), (6, 0, 0, [12], 16), (2, 1, 0, [1])], 12, rg=[1, 11], order=1, ps=PS3, codec=C3, read=7, via=7, k=4, **k))
+    o.append(tab('conc/float-bool-ba/r11-rg4.4.3/roundrobin', [(3, 0, 0, [1, 2]), (0, 1, 0, [3, 1]), (5, 0, 0, [2])], 11, rg=[4, 4, 3], order=2, ps=PS3, codec=C3, read=7, via=7, k=3, **k))
+    o.append(tab('conc/ba-int32-flba1/r9/trail0', [(5, 1, 0, [0, 4, 0, 5]), (1, 0, 0, [9]), (6, 1, 0, [2], 1)], 9, trail0=True, ps=PS3, codec=C3, read=7, via=7, k=9, **k))
+    o.append(tab('conc/allnull-nonull-bool/r8-rg3.5', [(2, 1, 4, [3, 5]), (4, 1, 8, [8]), (0, 1, 0, [1])], 8, rg=[3, 5], ps=PS3, codec=C3, read=7, via=7, k=2, **k))
+    o.append(tab('conc/allnull-ba-flba/r6', [(5, 1, 4, [6]), (6, 1, 4, [2, 4], 5), (0, 1, 4, [3])], 6, ps=PS3, codec=C3, read=7, via=7, k=4, **k))
+    o.append(tab('conc/zero-rows/3col', [(1, 1, 0, [1]), (5, 0, 0, [1]), (0, 1, 0, [1])], 0, rg=[0], ps=(1,), codec=C3, read=7, via=7, k=1, **k))
+    o.append(tab('conc/zero-rows-2groups/2col', [(2, 0, 0, [1]), (5, 1, 0, [1])], 0, rg=[0, 0], ps=(1,), codec=C3, read=7, via=7, k=1, **k))
+    o.append(tab('conc/stats-off/int64-double-int32/r8', [(2, 1, 0, [3, 5]), (4, 0, 0, [8]), (1, 1, 0, [4])], 8, stats=0, ps=PS3, codec=C3, read=7, via=7, k=3, **k))
+    o.append(tab('conc/rgsize1/int32-ba/r8', [(1, 0, 0, [3]), (5, 1, 0, [8])], 8, rgsize=1, ps=PS3, codec=C3, read=7, via=7, k=3, **k))
+    o.append(tab('conc/filewriter/int64-bool-float/r9-rg4.5', [(2, 1, 0, [2]), (0, 0, 0, [9]), (3, 1, 0, [4, 1])], 9, rg=[4, 5], wfile=True, ps=PS3, codec=C3, read=7, via=7, k=4, **k))
+    o.append(tab('conc/24rows/int32-double-ba', [(1, 1, 0, [7, 1, 9]), (4, 1, 0, [24]), (5, 1, 0, [5])], 24, rg=[9, 15], ps=(1, 200, 1048576), codec=C3, read=7, via=7, k=7, **A(timeout=2400)))
+    # ---- (7) symbolic content with options off the default: statistics off, FILE* writer, row_group_size, round robin + empty batches
+    o.append(tab('sym-int64/stats-off/r4', [(2, 1, 3, [2, 2]), (5, 1, 0, [4])], 4, stats=0, ps=(1,), read=1, via=1, **A(timeout=3000)))
+    o.append(tab('sym-double/filewriter/r3', [(4, 1, 3, [1, 2]), (0, 0, 0, [3])], 3, wfile=True, ps=(1048576,), read=2, via=1, **A(timeout=3000)))
+    o.append(tab('sym-int32/rgsize1-roundrobin-trail0/r4', [(1, 1, 3, [0, 2]), (5, 1, 0, [1, 0])], 4, rgsize=1, order=2, trail0=True, ps=(1,), read=4, via=3, k=2, **A(timeout=3000)))
+    return o
+
+
 def obligations(tier):
-    return shapes(tier)
+    if tier == 'quick':
+        return shapes(tier) + wides(tier)
+    return shapes(tier) + wides(tier) + deep()
